@@ -35,6 +35,8 @@ type c03Pred struct {
 	// leaf
 	Agg *c03Agg `json:"agg,omitempty"` // HAVING leaf: aggregate on the left-hand side
 	Col string  `json:"col,omitempty"` // WHERE leaf: column on the left-hand side
+	// WHERE leaf: EXISTS (SELECT w FROM n GROUP BY w HAVING COUNT(*) >= ExistsK) over the row's nested array n
+	ExistsK int `json:"exists_k,omitempty"`
 	Op  string  `json:"op,omitempty"`
 	K   float64 `json:"k"`
 }
@@ -67,6 +69,9 @@ func (a c03Agg) sql() string {
 func (p *c03Pred) sql() string {
 	if p.Conn != "" {
 		return fmt.Sprintf("(%s %s %s)", p.Left.sql(), p.Conn, p.Right.sql())
+	}
+	if p.ExistsK > 0 {
+		return fmt.Sprintf("EXISTS (SELECT w FROM n GROUP BY w HAVING COUNT(*) >= %d)", p.ExistsK)
 	}
 	lhs := p.Col
 	if p.Agg != nil {
@@ -144,6 +149,19 @@ func (p *c03Pred) evalRow(row map[string]any) bool {
 	}
 	if p.Conn == "OR" {
 		return p.Left.evalRow(row) || p.Right.evalRow(row)
+	}
+	if p.ExistsK > 0 {
+		counts := map[string]int{}
+		ns, _ := row["n"].([]any)
+		for _, e := range ns {
+			counts[e.(map[string]any)["w"].(string)]++
+		}
+		for _, c := range counts {
+			if c >= p.ExistsK {
+				return true
+			}
+		}
+		return false
 	}
 	return cmpOp(p.Op, row[p.Col].(float64), p.K)
 }
@@ -295,6 +313,10 @@ func referenceGroupBy(e *c03Expect, table []any) (rows []any, lenient [][]string
 var c03NumCols = []string{"x", "y", "z", "o.p"} // x has NULLs; y, z and the nested o.p are NULL-free
 
 func drawWherePred(t *rapid.T, depth int) *c03Pred {
+	if rapid.IntRange(0, 7).Draw(t, "w_exists") == 0 {
+		// a row-scoped subquery with its own GROUP BY and HAVING decides whether the row takes part
+		return &c03Pred{ExistsK: rapid.IntRange(1, 3).Draw(t, "w_exists_k")}
+	}
 	if depth >= 1 || rapid.IntRange(0, 2).Draw(t, "w_leaf") > 0 {
 		return &c03Pred{Col: rapid.SampledFrom([]string{"y", "z"}).Draw(t, "w_col"), Op: rapid.SampledFrom([]string{"=", "!=", "<", "<=", ">", ">="}).Draw(t, "w_op"), K: float64(rapid.IntRange(-1, 4).Draw(t, "w_k"))}
 	}
@@ -402,6 +424,11 @@ func genC03(t *rapid.T) *Bundle {
 		return genC03OverJoin(t)
 	}
 	n := rapid.IntRange(0, 8).Draw(t, "nrows")
+	// now and then a wide table: more distinct keys than any small index, cache or batch holds, early keys recurring late
+	wide := rapid.IntRange(0, 24).Draw(t, "wide_table") == 0
+	if wide {
+		n = rapid.IntRange(70, 220).Draw(t, "wide_rows")
+	}
 	mixed := rapid.IntRange(0, 4).Draw(t, "mixed_keys") == 0
 	keyDom := []any{nil, "a", "b"}
 	if mixed {
@@ -417,10 +444,25 @@ func genC03(t *rapid.T) *Bundle {
 			"z":  float64(rapid.IntRange(-2, 2).Draw(t, "z")),
 			"o":  map[string]any{"p": float64(rapid.IntRange(0, 3).Draw(t, "op"))},
 		}
+		ns := []any{}
+		if !wide {
+			for j := 0; j < rapid.IntRange(0, 4).Draw(t, "nn"); j++ {
+				ns = append(ns, map[string]any{"w": rapid.SampledFrom([]string{"p", "q"}).Draw(t, "nw")})
+			}
+		}
+		row["n"] = ns
 		if rapid.IntRange(0, 3).Draw(t, "x_null") == 0 {
 			row["x"] = nil
 		} else {
 			row["x"] = float64(rapid.IntRange(-3, 5).Draw(t, "x"))
+		}
+		if wide {
+			// ~150 distinct values; two thirds of the way through, the early ones come back
+			k := i
+			if i > n*2/3 {
+				k = (i * 7) % 40
+			}
+			row["g2"] = float64(k % 150)
 		}
 		table = append(table, row)
 	}
